@@ -63,10 +63,13 @@ def load_exceptions():
     src = open(os.path.join(common.COQ, 'Model', 'C11Check.v')).read()
     ids = dict(re.findall(r'Definition (\w+) := "([^"]+)"\.', src))
     out = []
-    for m in re.finditer(r'mk_exc (\w+) None "(\w+)" "(\w+)" (\w+) (\w+) (None|\(Some \w+\)) (true|false)', src):
+    for m in re.finditer(r'mk_exc (\w+) None "(\w+)" "(\w+)" (\w+) (\w+) (None|\(Some \w+\)) (true|false) (None|\(Some \w+\))', src):
         cont = None if m.group(6) == 'None' else m.group(6)[6:-1]
+        dt = None if m.group(8) == 'None' else m.group(8)[6:-1]
         out.append(dict(id=ids[m.group(1)], origin=m.group(2), meth=m.group(3), arg=m.group(4), kind=m.group(5),
-                        cont=cont, fitted=m.group(7) == 'true'))
+                        cont=cont, fitted=m.group(7) == 'true', dt=dt))
+    if len(out) != len(re.findall(r'^\s*mk_exc ', src, flags=re.M)):
+        raise RuntimeError('coq/Model/C11Check.v: exception list not understood')
     return out
 
 
@@ -141,6 +144,24 @@ def variants(arg, base, kinds, tier, heavy, bad_domain):
         yield 'valid-tuple', as_container(base, 'CTuple'), D(base, cont='CTuple')
         if np.all(base == np.round(base)):
             yield 'valid-int-dtype', base.astype(int), D(base, dt='DInt')
+    # containers the library has to cast to float: object-dtype ndarray, list of numeric strings, mixed list
+    def as_obj(a):
+        return np.asarray(a, dtype=float).astype(object)
+
+    def as_str(a, mixed=False):
+        def conv(i, v):
+            v = float(v)
+            if mixed and i % 3 == 0:
+                return v                       # np.array of a str/float mix is a string array all the same
+            return 'nan' if np.isnan(v) else ('inf' if v == np.inf else ('-inf' if v == -np.inf else repr(v)))
+        a = np.asarray(a, dtype=float)
+        if a.ndim == 1:
+            return [conv(i, v) for i, v in enumerate(a)]
+        return [[conv(i + j, v) for j, v in enumerate(r)] for i, r in enumerate(a)]
+    yield 'valid-object-ndarray', as_obj(base), D(base, dt='DObject')
+    yield 'valid-string-list', as_str(base), D(base, cont='CList', dt='DStr')
+    if not heavy or tier == 'thorough':
+        yield 'valid-mixed-list', as_str(base, mixed=True), D(base, cont='CList', dt='DStr')
     flat_n = base.size
     pos_sets = {'first': [0], 'middle': [flat_n // 2], 'last': [flat_n - 1], 'several': [1, flat_n // 3, flat_n - 2]}
     if 'KNonFinite' in kinds:
@@ -152,6 +173,19 @@ def variants(arg, base, kinds, tier, heavy, bad_domain):
             a = base.copy()
             a.ravel()[pos_sets[pname]] = val
             yield '%s-%s' % (vname, pname), a, D(a, kind='KNonFinite')
+        for vname, val, pos in (('pinf', np.inf, flat_n // 2), ('ninf', -np.inf, flat_n - 1), ('nan', np.nan, 0)):
+            a = base.copy()
+            a.ravel()[pos] = val
+            yield '%s-object-ndarray' % vname, as_obj(a), D(a, dt='DObject', kind='KNonFinite')
+            yield '%s-string-list' % vname, as_str(a), D(a, cont='CList', dt='DStr', kind='KNonFinite')
+            if vname == 'pinf' and (not heavy or tier == 'thorough'):
+                yield 'pinf-mixed-list', as_str(a, mixed=True), D(a, cont='CList', dt='DStr', kind='KNonFinite')
+        if not is2d:
+            a = base.copy()
+            a[flat_n // 3] = np.nan
+            lst = a.tolist()
+            lst[flat_n // 3] = None               # np.array -> object dtype, astype(float) -> nan
+            yield 'none-in-list', lst, D(a, cont='CList', dt='DStr', kind='KNonFinite')
         a = base.copy()
         a.ravel()[flat_n // 2] = np.nan
         yield 'nan-middle-list', as_container(a, 'CList'), D(a, cont='CList', kind='KNonFinite')
@@ -226,10 +260,13 @@ def finite_class(r, Xvalid):
         return 'ORetFinite', 'returned %s (not numeric: %s)' % (type(r).__name__, type(e).__name__)
 
 
-def call_plan(e, minfo, X, state, value, skip):
+def call_plan(e, minfo, X, state, value, skip, model=None):
     """build the thunk calling the real method with the traced argument replaced by `value`"""
     cls, meth, arg = e['cls'], e['meth'], e['arg']
-    model = copy.deepcopy(minfo['fitted']) if state == 'fitted' else minfo['new']()
+    if model is None:
+        model = copy.deepcopy(minfo['fitted']) if state == 'fitted' else minfo['new']()
+    else:
+        model = copy.deepcopy(model)
     fn = getattr(model, meth)
     params = inspect.signature(fn).parameters
     kw = {}
@@ -282,10 +319,10 @@ def desc_coq(d, elems):
                                               coq_bool(d['width_ok']), coq_bool(d['dom_ok']), coq_bool(d['cat_ok']))
 
 
-def find_exception(excs, e, kind, cont, fitted):
+def find_exception(excs, e, kind, cont, fitted, dt=None):
     for x in excs:
         if x['origin'] == e['origin'] and x['meth'] == e['meth'] and x['arg'] == ARGK[e['arg']] and x['kind'] == kind \
-                and (x['cont'] is None or x['cont'] == cont) and x['fitted'] == fitted:
+                and (x['cont'] is None or x['cont'] == cont) and x['fitted'] == fitted and (x['dt'] is None or x['dt'] == dt):
             return x['id']
     return None
 
@@ -349,7 +386,7 @@ def record(res, cases, meta, excs, e, d, value, tag, fitted, skip, obs, text):
                 what='%s.%s(%s=<%s>) on a %s model did not raise ValueError' % (e['cls'], e['meth'], e['arg'], tag,
                                                                                  'fitted' if fitted else 'unfitted'),
                 input=inp, expected='ValueError', observed=text,
-                finding=find_exception(excs, e, kind, d['cont'], fitted)))
+                finding=find_exception(excs, e, kind, d['cont'], fitted, d['dt'])))
     elif not state_ok:
         good = ('OAE',) if kind is None else ('OAE', 'OVE')
         # (the property asks for an AttributeError; one that does not come from the guard is only counted)
@@ -360,6 +397,10 @@ def record(res, cases, meta, excs, e, d, value, tag, fitted, skip, obs, text):
                 what='%s.%s on an unfitted model did not raise the not-fitted AttributeError' % (e['cls'], e['meth']),
                 input=inp, expected='AttributeError (GAM has not been fitted)' + ('' if kind is None else ' or ValueError'),
                 observed=text, finding=None))
+    elif kind is None and state_ok and e['fitting'] and obs not in ('OVE', 'ORetFinite') and d['dt'] == 'DStr':
+        # valid numbers written as strings are outside the property (it speaks of invalid data and of fits on valid
+        # *numeric* data): counted only.  (PoissonGAM.fit / gridsearch: TypeError from y / exposure.)
+        res.count('valid-numeric-strings:%s.%s:%s' % (e['cls'], e['meth'], obs))
     elif kind is None and state_ok and e['fitting'] and obs not in ('OVE', 'ORetFinite'):
         # last sentence of the property, for the entry points that fit
         fid = None
